@@ -65,7 +65,7 @@ def valid_dtd(c):
 
 # ------------------------------------------------------------------ cores
 def gen_sites(rng, tier):
-    for c in contents(rng, n_cases(tier, 400, 20000)):
+    for c in contents(rng, n_cases(tier, 400, 8000)):
         if not valid_dtd(c):
             continue
         try:
@@ -116,7 +116,7 @@ def field_shapes(cls):
 
 
 def gen_fields(rng, tier):
-    for c in contents(rng, n_cases(tier, 60, 3000)):
+    for c in contents(rng, n_cases(tier, 60, 800)):
         if not valid_dtd(c):
             continue
         try:
@@ -301,7 +301,7 @@ def gen_docs(rng, tier):
     for c, words in HAND_DOCS:
         if valid_dtd(c):
             yield {"content": c, "words": words, "attrs": [], "ns": None}
-    for c in contents(rng, n_cases(tier, 50, 2500)):
+    for c in contents(rng, n_cases(tier, 50, 100000)):
         if not valid_dtd(c):
             continue
         p = G.dtd_particle(c)
@@ -321,11 +321,9 @@ def true_max(p, n):
 def covered_docs(a, msg):
     c = a["content"]
     dup = len(set(G.dtd_names(c))) != len(G.dtd_names(c))
-    if restricted(c) and not dup:
+    if not dup:
         return None
     if "rejected" in msg and ("Unknown property" in msg or "Failed to create" in msg or "missing" in msg):
-        if not restricted(c):
-            return "C16-sequence-occurrence-dropped"
         return "C16-duplicate-name-sites"
     if dup and ("another element order" in msg or "not DTD-valid" in msg or "other content ({'compound_fields': True})" in msg):
         # one field per element name: two sites of one name cannot both keep their place
@@ -351,8 +349,6 @@ def spec_e2e(a):
     c = a["content"]
     if len(set(G.dtd_names(c))) != len(G.dtd_names(c)):
         return {"unspecified": "an element name at several sites (finding C16-duplicate-name-sites)"}
-    if not restricted(c):
-        return {"unspecified": "repetition on a sequence or inside a choice (findings C16-sequence-occurrence-dropped / C16-choice-overrides-child-occurrence)"}
     return ok("faithful")
 
 
@@ -378,9 +374,18 @@ def gen_restricted(rng):
 
 
 def gen_e2e(rng, tier):
-    for _ in range(n_cases(tier, 30, 2000)):
-        c = gen_restricted(rng)
-        if not valid_dtd(c):
+    # the former counterexamples first: (a,b)*, (a|b+), ((a,b)*,(c|d+),e?), (a,b)?
+    for c, words in [
+        (HAND[0], [[], ["a", "b"], ["a", "b", "a", "b"]]),
+        (HAND[1], [["a"], ["b"], ["b", "b", "b"]]),
+        (HAND[2], [["c"], ["a", "b", "a", "b", "d", "d", "e"], ["a", "b", "c", "e"]]),
+        ({"k": "seq", "o": "opt", "c": [E("a"), E("b")]}, [[], ["a", "b"]]),
+    ]:
+        yield {"content": c, "words": words, "attrs": [], "ns": None}
+    for i in range(n_cases(tier, 40, 1200)):
+        # inside the property's own restriction, and arbitrary nesting of indicators (distinct names)
+        c = gen_restricted(rng) if i % 2 == 0 else G.gen_dtd_content(rng, distinct=["a", "b", "c", "d", "e", "f", "g"])
+        if c is None or "n" in c or not valid_dtd(c):
             continue
         p = G.dtd_particle(c)
         attrs = sorted(rng.sample(range(len(ATTR_VARIANTS)), rng.randint(0, 4)))
@@ -402,16 +407,6 @@ CORRS = [
 ]
 
 
-def finding_seq():
-    msg = oracle_docs({"content": HAND[0], "words": [["a", "b", "a", "b"]], "attrs": []})
-    return (msg is not None and "rejected" in msg, msg or "the document now parses")
-
-
-def finding_choice_child():
-    msg = oracle_docs({"content": HAND[1], "words": [["b", "b"]], "attrs": []})
-    return (msg is not None and "rejected" in msg, msg or "the document now parses")
-
-
 def finding_dup():
     msg = oracle_docs({"content": HAND[5], "words": [["a", "a"]], "attrs": []})
     return (msg is not None and "rejected" in msg, msg or "the document now parses")
@@ -419,8 +414,6 @@ def finding_dup():
 
 FINDINGS = {
     "C16-duplicate-name-sites": finding_dup,
-    "C16-sequence-occurrence-dropped": finding_seq,
-    "C16-choice-overrides-child-occurrence": finding_choice_child,
 }
 TRUSTED = [
     "lxml/libxml2 DTD parser delivers the content tree (DtdParser is a thin reader) and is the independent validator",
@@ -428,9 +421,10 @@ TRUSTED = [
 ]
 ASSUMPTIONS = ["child elements are (#PCDATA); ANY, mixed content and xmlns attribute declarations are exercised only by the oracle's default shapes"]
 LEVEL_TEXT = (
-    "Partial. Lean theorems (Props/C16.lean) for DtdMapper.build_content and the occurrence handlers: under the property's own "
-    "restriction (repetition only on single elements and on choices of single elements) and distinct element names a non-list field is never repeated "
-    "and a required field is always present in a DTD-valid document; counterexample theorems for (a,b)* and (a|b+). Tied to /repo by "
+    "Partial. Lean theorems (Props/C16.lean) for DtdMapper.build_content (after the repair: occurrence indicators of sequence and choice "
+    "nodes go to the restrictions path, as for XSD) and the occurrence handlers: for every content model with distinct element names, wherever "
+    "the occurrence indicators sit, a non-list field is never repeated and a required field is always present in a DTD-valid document, and a list "
+    "field is needed; the mapper's fields are literally the XSD mapper's sites of the same particle; counterexample theorem for repeated names. Tied to /repo by "
     "correspondence of DtdMapper sites, the handlers and the generated field shapes of the whole pipeline; documents and attribute defaults end to end by the oracle."
 )
 LEVEL_NOTE = "Trusted: Lean kernel, particle language spec, libxml2 DTD reader/validator, stand-in renderer, sampling correspondence."
